@@ -353,10 +353,21 @@ def extraction(ctx, f, cfg):
     idx = [(bb, t) for bb, t in b.calls() if (callee_def(t).endswith("Index::index") or callee_def(t).rsplit("::", 1)[-1] in ("get", "get_key_value"))
            and "HashMap<" in (t.get("arg_tys") or [""])[0] and any_atom(sl.of_operand(t["args"][0]), "call:SentinelInput::attachments")]
     okk = bool(idx)
+    # the key that is looked up is the key that was tested for emptiness: same normalisation (trim) on both
+    norm = set()
+    for bb, t in b.calls():
+        if callee_def(t).rsplit("::", 1)[-1] == "is_empty" and t["args"]:
+            a = sl.of_operand(t["args"][0])
+            if any_atom(a, "field:Rule.param_key"):
+                norm |= {x for x in a if x.startswith("call:") and "trim" in x.rsplit("::", 1)[-1]}
+    lost = set()
     for bb, t in idx:
         ka = sl.of_operand(t["args"][1])
         okk = okk and any_atom(ka, "field:Rule.param_key")
-    ctx.instance("C05.hs-extract/keyed", b.path, {"lookups": len(idx)}, "attachments[rule.param_key]", okk, cfg)
+        lost |= norm - ka
+    okk = okk and not lost
+    ctx.instance("C05.hs-extract/keyed", b.path, {"lookups": len(idx), "normalisation_of_tested_key": sorted(x.rsplit("::", 1)[-1] for x in norm), "not_applied_to_lookup_key": sorted(x.rsplit("::", 1)[-1] for x in lost)},
+                 "attachments[rule.param_key, normalised as in the emptiness test]", okk, cfg)
     if not okk:
         ctx.violation("C05.hs-extract", "C05.hs-extract|keyed", "the keyed parameter is not looked up by the rule's param_key", b.loc(), config=cfg)
     # priority: the positional list is consulted only after the keyed lookup
